@@ -341,6 +341,10 @@ var c11HistJobs = []c11Job{
 	{"<?php namespace { new User; f(); echo K; }", "7.4"},
 	{"<?php namespace A { use B\\User; } namespace { new User; }", "5.6"},
 	{"<?php use X\\User; new User; f(); echo K;", "7.4"},
+	// several candidates for one lookup (aliases that differ only in letter case, a reference in a third spelling): whatever
+	// the resolver makes of it must be the same every time (no dependence on map iteration order)
+	{"<?php use Lib\\Http\\Client; use Vendor\\Net\\CLIENT; use function A\\foo; use function B\\FOO; use const C\\K; use const D\\k; new client; new Client\\X; Foo(); echo K, k;", "7.4"},
+	{"<?php namespace N; use A\\{B, b as C, c}; use A\\B as c; new b; new C; new B\\D; function f(c $x): B {}", "7.4"},
 }
 
 func c11Histories(c *core.Ctx) {
